@@ -1,0 +1,132 @@
+// SPDX-License-Identifier: Apache-2.0 OR MIT
+
+//! Verification hooks.
+//!
+//! This module only exists when the crate is built with `--cfg fast_tlsh_verif`
+//! (never by default; no Cargo feature enables it).  It gives a deterministic
+//! simulator control over the two sources of nondeterminism the runtime
+//! dispatchers depend on:
+//!
+//! *   the CPU features the process "runs on" ([`set_cpu_mask()`]) and
+//! *   the once-initialised dispatch cells ([`OnceLock`], reset by [`boot()`]),
+//!
+//! plus a callback ([`set_sim_point()`]) invoked at every detection step so that
+//! a scheduler can interleave threads inside the initialisation.
+//!
+//! With the additional cfg `fast_tlsh_verif_shuttle` (which requires the
+//! `shuttle` crate, added by a shadow manifest outside this repository), the
+//! cell blocks on a `shuttle` mutex so that the blocking itself is a
+//! scheduling point owned by the simulator.
+
+#![allow(missing_docs)]
+#![allow(clippy::missing_docs_in_private_items)]
+
+use core::sync::atomic::{AtomicU32, AtomicU64, Ordering};
+
+#[cfg(fast_tlsh_verif_shuttle)]
+use shuttle::sync::Mutex;
+#[cfg(not(fast_tlsh_verif_shuttle))]
+use std::sync::Mutex;
+use std::sync::RwLock;
+
+/// Bit for SSE2 in the simulated CPU mask.
+pub const CPU_SSE2: u32 = 1;
+/// Bit for SSSE3 in the simulated CPU mask.
+pub const CPU_SSSE3: u32 = 2;
+/// Bit for SSE4.1 in the simulated CPU mask.
+pub const CPU_SSE4_1: u32 = 4;
+/// Bit for AVX2 in the simulated CPU mask.
+pub const CPU_AVX2: u32 = 8;
+/// All features (the real CPU decides).
+pub const CPU_ALL: u32 = u32::MAX;
+
+/// The simulated CPU feature mask (ANDed with what the real CPU has).
+static CPU_MASK: AtomicU32 = AtomicU32::new(CPU_ALL);
+
+/// The dispatch epoch ("process boot count").
+static EPOCH: AtomicU64 = AtomicU64::new(1);
+
+/// The simulation point callback.
+static SIM_POINT: RwLock<Option<fn(&'static str)>> = RwLock::new(None);
+
+/// Sets the simulated CPU feature mask.
+pub fn set_cpu_mask(mask: u32) {
+    CPU_MASK.store(mask, Ordering::SeqCst);
+}
+
+/// Installs (or removes) the simulation point callback.
+pub fn set_sim_point(f: Option<fn(&'static str)>) {
+    *SIM_POINT.write().unwrap_or_else(|e| e.into_inner()) = f;
+}
+
+/// Reports a simulation point to the simulator (if a callback is installed).
+pub fn sim_point(name: &'static str) {
+    let f = *SIM_POINT.read().unwrap_or_else(|e| e.into_inner());
+    if let Some(f) = f {
+        f(name);
+    }
+}
+
+/// "Reboots the process": every dispatch cell forgets what it stored.
+pub fn boot() {
+    EPOCH.fetch_add(1, Ordering::SeqCst);
+}
+
+/// Whether the simulated CPU has the feature with specified name.
+pub fn cpu_has(name: &'static str) -> bool {
+    sim_point(name);
+    let bit = match name {
+        "sse2" => CPU_SSE2,
+        "ssse3" => CPU_SSSE3,
+        "sse4.1" => CPU_SSE4_1,
+        "avx2" => CPU_AVX2,
+        _ => 0,
+    };
+    CPU_MASK.load(Ordering::SeqCst) & bit != 0
+}
+
+/// Replacement of `std::arch::is_x86_feature_detected!` consulting the
+/// simulated CPU first.
+macro_rules! verif_is_x86_feature_detected {
+    ($feature:tt) => {
+        $crate::verif::cpu_has($feature) && std::arch::is_x86_feature_detected!($feature)
+    };
+}
+pub(crate) use verif_is_x86_feature_detected as is_x86_feature_detected;
+
+/// A resettable stand-in for [`std::sync::OnceLock`] with the surface the
+/// dispatchers use: `const fn new()` and `get_or_init()`.
+///
+/// As with the original: the initialiser runs while the cell is held, other
+/// callers block until it has finished and exactly one initialiser runs (per
+/// [`boot()`] epoch).
+pub struct OnceLock<T> {
+    /// The stored value with the epoch in which it was stored.
+    cell: Mutex<Option<(u64, T)>>,
+}
+
+impl<T: Copy> OnceLock<T> {
+    /// Creates an empty cell.
+    #[allow(clippy::new_without_default)]
+    pub const fn new() -> Self {
+        Self {
+            cell: Mutex::new(None),
+        }
+    }
+
+    /// Gets the value, initialising the cell first if it is empty (or stale).
+    pub fn get_or_init<F: FnOnce() -> T>(&self, f: F) -> T {
+        sim_point("once.enter");
+        let mut guard = self.cell.lock().unwrap_or_else(|e| e.into_inner());
+        let epoch = EPOCH.load(Ordering::SeqCst);
+        if let Some((stored_epoch, value)) = *guard {
+            if stored_epoch == epoch {
+                return value;
+            }
+        }
+        sim_point("once.init");
+        let value = f();
+        *guard = Some((epoch, value));
+        value
+    }
+}
